@@ -116,9 +116,26 @@ fn on_point(name: &'static str, arg: u64) {
         }
     }
     if let Some(root) = snap_root {
+        // what the on-disk segment index of every shard names (the index file is replaced by rename), read before and
+        // after the directory walk: the walk is not atomic against the reclaim and flush tasks, so only a segment named at
+        // both ends was published during the whole walk
+        let read_index = |root: &std::path::Path| {
+            let mut index = serde_json::Map::new();
+            if let Ok(rd) = std::fs::read_dir(root) {
+                for e in rd.flatten() {
+                    let n = e.file_name().to_string_lossy().to_string();
+                    if let Some(id) = n.strip_prefix("shard-") {
+                        index.insert(id.to_string(), crate::fsmon::index_json(&e.path()));
+                    }
+                }
+            }
+            index
+        };
+        let index_before = read_index(&root);
         let m = crate::fsmon::manifest(&root, false);
+        let index = read_index(&root);
         let mut st = lock();
-        st.snaps.push(json!({"point": name, "arg": arg, "files": m}));
+        st.snaps.push(json!({"point": name, "arg": arg, "files": m, "index": index, "index_before": index_before}));
     }
     for a in todo {
         match a {
